@@ -128,12 +128,15 @@ CHECKS.update({
         technique="Lean 4 proof of the tree-building step + differential testing of atom evaluation against packaging",
         design_ref="6/C03"),
     "C07": dict(
-        text="Lean: str_empty_any, reparse theorems of Properties/C07.lean (the token list the text of a marker denotes rebuilds "
-             "to a marker with the same meaning); the text-level printer/parser pair (packaging's marker parser) is outside the "
-             "model and is decided differentially: str(m) of every reachable result is re-parsed by parse_marker and by "
-             "packaging, compared with the model's str and judged by evaluate() on literal-derived environments.",
-        technique="Lean 4 partial proof (token level) + differential round-trip testing",
-        design_ref="6/C07"),
+        text="Lean: C07.items_sem - the token list that the text of a marker denotes (parenthesisation of MultiMarker/"
+             "MarkerUnion.__str__, re-rendered atoms incl. literal-on-the-left, grouped ==/!= atoms) evaluates, under the PEP 508 "
+             "reference evaluation, to the marker's meaning; C07.reparse_sound - whatever _build_markers rebuilds from that list "
+             "(through all parse-time merging; C03.build_sound) means what the marker means; str_empty_any. For every printable "
+             "marker over good atoms, every environment, every fuel covering the nesting depth. Outside the model, compared on "
+             "every run: that packaging's parser reads str(m) as exactly that token list (stream C07.tokens), acceptance by "
+             "parse_marker and packaging, and evaluate() of the re-parsed marker on literal-derived environments.",
+        technique="Lean 4 proof at token level + differential comparison of the text->token step and of the full round trip",
+        design_ref="0.2, 6/C07"),
     "C10": dict(
         text="Lean: C10.call_ok / history_transparent / probe_independent - in a model where every atom carries the cached "
              "specifier the code would compute (WF), any history of prior calls leaves later results unchanged; "
